@@ -15,7 +15,7 @@ PROPS = {
     "C14": P("pure", shards=(8, 16), floor=(20, 20), exhaustive={"quick": False, "thorough": True}),
     "C15": P("pure", shards=(8, 16), floor=(10, 10)),
     "C16": P("pure", shards=(8, 16), floor=(10, 10)),
-    "C17": P("pure", shards=(8, 16), floor=(10, 10)),
+    "C17": P("pure", shards=(8, 16), floor=(10, 10), also=[{"binary": "appmon", "shards": {"quick": 2, "thorough": 8}}]),
     "C01": P("appmon", shards=(6, 16), floor=(10, 10)),
     "C02": P("appmon", shards=(6, 16), floor=(10, 10)),
     "C05": P("appmon", shards=(6, 16), floor=(10, 10)),
